@@ -96,6 +96,22 @@ def mkint(t, lo, hi):
     t = z3.simplify(t) if not z3.is_bv_value(t) else t
     if z3.is_bv_value(t):
         return t.as_signed_long()
+    # zero_extend(extract[h:0](x)) == x when x is an input known to lie in [0, 2^(h+1))
+    # (a value that went through struct.pack / unpack keeps its identity and its interval)
+    if _CTX is not None and getattr(_CTX, "intervals", None):
+        e = None
+        if z3.is_app_of(t, z3.Z3_OP_CONCAT) and t.num_args() == 2 and z3.is_bv_value(t.arg(0)) \
+                and t.arg(0).as_long() == 0:
+            e = t.arg(1)
+        elif z3.is_app_of(t, z3.Z3_OP_ZERO_EXT):
+            e = t.arg(0)
+        if e is not None and z3.is_app_of(e, z3.Z3_OP_EXTRACT):
+            h, l = e.params()
+            x = e.arg(0)
+            if l == 0 and x.size() == W:
+                iv = _CTX.intervals.get(x.get_id())
+                if iv is not None and iv[0] >= 0 and iv[1] < (1 << (h + 1)):
+                    return SymInt(x, max(lo, iv[0]), min(hi, iv[1]))
     return SymInt(t, max(lo, IMIN), min(hi, IMAX))
 
 
@@ -666,6 +682,20 @@ def b8(x):
     return z3.simplify(z3.Extract(7, 0, t))
 
 
+def _memo_at(fn):
+    """Memoise _at per object and index term (nested views share sub-terms)."""
+    def at(self, i):
+        memo = self.__dict__.setdefault("_memo", {})
+        key = i if isinstance(i, int) else ("t", i.t.get_id())
+        hit = memo.get(key)
+        if hit is not None:
+            return hit[0]
+        r = fn(self, i)
+        memo[key] = (r, i)      # keep the index term alive so its id is not reused
+        return r
+    return at
+
+
 class SymBytesBase:
     """Abstract symbolic byte string.  Subclasses define .length and _at(i)."""
 
@@ -741,7 +771,9 @@ class SymBytesBase:
                 if v < 0:
                     v = max(v + n, 0)
                 return min(v, n)
-            # symbolic: clamp by forking
+            # symbolic bound: usually provably inside [0, n] -> no clamp, no fork
+            if c.prove(And(v >= 0, v <= n)):
+                return v
             if isinstance(v, int) and v < 0:
                 v = v + n
                 if c.decide(bterm(v < 0)):
@@ -762,9 +794,17 @@ class SymBytesBase:
             if hi <= lo:
                 return Conc(b"")
             return self._cslice(lo, hi)
-        if c.decide(bterm(hi <= lo)):
+        if c.prove(hi >= lo):
+            ln = hi - lo          # may be zero: an empty view is fine
+        elif c.decide(bterm(hi <= lo)):
             return Conc(b"")
-        ln = hi - lo
+        else:
+            ln = hi - lo
+        if isinstance(ln, int):
+            if ln == 0:
+                return Conc(b"")
+            if isinstance(lo, int):
+                return self._cslice(lo, lo + ln)
         return View(self, lo, ln)
 
     def _cslice(self, lo, hi):
@@ -1055,6 +1095,7 @@ class Arr(SymBytesBase):
     def length(self):
         return self._length
 
+    @_memo_at
     def _at(self, i):
         return _mkbyte(z3.Select(self.arr, bv(i)))
 
@@ -1081,6 +1122,7 @@ class View(SymBytesBase):
     def length(self):
         return self._length
 
+    @_memo_at
     def _at(self, i):
         return self.parent._at(self.lo + i)
 
@@ -1134,6 +1176,7 @@ class Cat(SymBytesBase):
             return self.parts[0]
         return self
 
+    @_memo_at
     def _at(self, i):
         if isinstance(i, int):
             # resolve structurally while offsets are concrete
